@@ -80,12 +80,16 @@ def renderAck : Option Ack → String
   | some .success => "success"
   | some .error => "error"
 
+/-- a denom inside a `/`-separated rendering (`sent=`, `sub=`): its own `/` is written `~` (harness `slash_enc`) -/
+def slashEnc (d : String) : String := d.replace "/" "~"
+def slashDec (d : String) : String := d.replace "~" "/"
+
 def renderSend (o : SendOut) : String :=
-  s!"{o.channel}/{o.packet.denom.render}/{o.packet.amount}/{o.packet.sender}/{o.packet.receiver}/{optStrStr o.packet.memo}/{o.timeout}"
+  s!"{o.channel}/{slashEnc o.packet.denom.render}/{o.packet.amount}/{o.packet.sender}/{o.packet.receiver}/{optStrStr o.packet.memo}/{o.timeout}"
 
 def renderSub (s : SubMsg) : String :=
   -- the numeric reply id is private to the contract and not compared (the harness routes replies by the code's own id)
-  s!"{s.to}/{s.amount}/{s.denom.render}/{optNatStr s.gas}"
+  s!"{s.to}/{s.amount}/{slashEnc s.denom.render}/{optNatStr s.gas}"
 
 def renderOutcome (o : Outcome) : Args :=
   [("ack", renderAck o.ack),
@@ -430,7 +434,8 @@ def monitorOp (mu : Mon) (prev : Args) (toks : List String) (implOk : Bool) (out
       if kind == "transfer" || kind == "send" || kind == "hook" then
         sentL.foldl (fun (mu : Mon) p =>
           match p.splitOn "/" with
-          | [c, d, n, _, _, _, _] =>
+          | [c, d0, n, _, _, _, _] =>
+            let d := slashDec d0
             { mu with escrowed := mu.escrowed.add (c, d) (n.toNat?.getD 0), totalSent := mu.totalSent.add (c, d) (n.toNat?.getD 0) }
           | _ => mu) mu
       else if kind == "migrate" && (match mu.legacyVer with
@@ -544,7 +549,7 @@ def monitorOp (mu : Mon) (prev : Args) (toks : List String) (implOk : Bool) (out
                        if kind == "send" then "cw20:" ++ a.str "token" else "cw20:" ++ snd
           let amount := if kind == "transfer" then ((parseFunds a).head?.map (·.2)).getD 0 else amt
           let sender := if kind == "hook" then (parseAddr (a.str "sender")).2 else snd
-          let expect := s!"{a.str "chan"}/{denom}/{amount}/{sender}/{a.str "to"}/{optStrStr (a.optStr "memo")}/{mu.blk.time + (tmo.getD 0) * 1000000000}"
+          let expect := s!"{a.str "chan"}/{slashEnc denom}/{amount}/{sender}/{a.str "to"}/{optStrStr (a.optStr "memo")}/{mu.blk.time + (tmo.getD 0) * 1000000000}"
           if sentL == [expect] && amount ≤ U64_MAX && amount != 0 then [] else
             [mk "C12" "C12/transfer-packet" s!"sent={out.str "sent"} expected={expect}"])
        else [])
